@@ -79,16 +79,22 @@ def rand_tier(rng, name="d", hi=5.0, nmax=7, pkind=0.25, labels=None, src=None, 
     return kind, ents, lo, top, make_tier(kind, name, ents, lo, top)
 
 
-def rand_textgrid(rng, hi=5.0, ntiers=(1, 5), nmax=5, labels=None):
+def rand_textgrid(rng, hi=5.0, ntiers=(1, 5), nmax=5, labels=None, variants=True):
     """A validate()-clean random textgrid on one decimal flavour; returns (tg, all boundaries as pseudo-entries)."""
     from praatio.data_classes.textgrid import Textgrid
 
-    tg = Textgrid()
     _, src = gen.rand_time_source(rng)
     allents = []
+    r = rng.random() if variants else 1.0
+    wider = r < 0.12  # the textgrid is wider than every tier
+    tg = Textgrid(0.0, hi + 1.0) if wider else Textgrid()
     for i in range(rng.randrange(*ntiers)):
         kind, ents, lo, top, t = rand_tier(rng, "t%d" % i, hi, nmax, 0.3, labels, src, full_span=True)
         tg.addTier(t, reportingMode="silence")
+        allents.extend((e[0], e[-2], "") for e in ents)
+    if 0.12 <= r < 0.22:  # one tier narrower than the textgrid
+        kind, ents, lo, top, t = rand_tier(rng, "narrow", hi * 0.8, nmax, 0.3, labels, src, full_span=False)
+        tg.addTier(t, rng.choice([None, 0]), reportingMode="silence")
         allents.extend((e[0], e[-2], "") for e in ents)
     return tg, allents
 
